@@ -79,6 +79,11 @@ pub fn discard_pending() {
     SERLOG.with(|s| s.borrow_mut().clear());
 }
 
+/// Take the pending serializations (used by drivers to read the terms inside an opaque artefact).
+pub fn take_pending() -> Vec<(Tid, Fr)> {
+    SERLOG.with(|s| std::mem::take(&mut *s.borrow_mut())).into_iter().map(|(t, v, _)| (t, v)).collect()
+}
+
 /// At the end of a run: symbolic values that were serialized but never reached an oracle went
 /// somewhere the engine cannot follow: concretise them.
 pub fn flush_pending() {
